@@ -66,6 +66,11 @@ func (ltEngine) Generate(prop string, r *simrt.RNG, tier string, run int) *simrt
 	sc.Knobs["timeout_ms"] = timeout
 	// the node's clock correction (what the NTP check sets): every deadline of the
 	// node must be taken and compared on the same clock, whatever the correction
+	// the transport refuses the node's first publish (a transient failure): what
+	// the node publishes afterwards must still go out
+	if r.Chance(1, 3) {
+		sc.Knobs["fail_first_publish"] = 1
+	}
 	if r.Chance(1, 3) {
 		sc.Knobs["clock_correction_ms"] = []int64{3000, -3000, 250, 20000, -20000}[r.Intn(5)]
 	}
@@ -201,6 +206,10 @@ func (ltEngine) run(ctx *simrt.Ctx) *simrt.Violation {
 	n := newNode(ctx, nodeOpts{uid: uid, mempool: true, ltTimeout: timeoutMs})
 	defer n.close()
 	n.bsim = broadcast.NewSim(n.env, n.run)
+	if sc.Knob("fail_first_publish", 0) == 1 {
+		n.bsim.FailNextPublishes(1)
+		ctx.Fault("publish_refused_by_transport")
+	}
 	simrt.Settle()
 	time.Sleep(3 * time.Second) // mempool learns the chain is synced
 	simrt.Settle()
